@@ -77,6 +77,8 @@ class Context(object):
         if tgt is None:
             raise RuntimeError("no target at %r" % ((self.connected[0], self.targetname, lun),))
         status, sense = tgt.command(task.cdb, dataout, datain, "iscsi")
+        if status == "HOSTERR":
+            status = 0x0F000001          # libiscsi: SCSI_STATUS_ERROR (no status came back from the target)
         task.status = status
         if datain is not None and len(datain) and tgt.log and "transferred" in tgt.log[-1]:
             task.residual = len(datain) - tgt.log[-1]["transferred"]
